@@ -124,29 +124,12 @@ func (s *Modifier) ModifyResponse(res *http.Response) error {
 	rh := res.Request.Header.Get("Range")
 	rh = strings.ToLower(rh)
 	sranges := strings.Split(strings.TrimLeft(rh, "bytes="), ",")
+	size := int(info.Size())
 	var ranges [][]int
 	for _, rng := range sranges {
-		if strings.HasSuffix(rng, "-") {
-			rng = fmt.Sprintf("%s%d", rng, info.Size()-1)
-		}
-
-		rs := strings.Split(rng, "-")
-		if len(rs) != 2 {
-			res.StatusCode = http.StatusRequestedRangeNotSatisfiable
-			return nil
-		}
-		start, err := strconv.Atoi(strings.TrimSpace(rs[0]))
-		if err != nil {
-			return err
-		}
-
-		end, err := strconv.Atoi(strings.TrimSpace(rs[1]))
-		if err != nil {
-			return err
-		}
-
-		if start > end {
-			res.StatusCode = http.StatusRequestedRangeNotSatisfiable
+		start, end, ok := resolveRange(rng, size)
+		if !ok {
+			rangeNotSatisfiable(res, size)
 			return nil
 		}
 
@@ -165,6 +148,7 @@ func (s *Modifier) ModifyResponse(res *http.Response) error {
 
 		switch n, err := f.ReadAt(seg, int64(start)); err {
 		case nil, io.EOF:
+			seg = seg[:n]
 			res.ContentLength = int64(n)
 		default:
 			return err
@@ -191,6 +175,7 @@ func (s *Modifier) ModifyResponse(res *http.Response) error {
 
 		switch n, err := f.ReadAt(seg, int64(start)); err {
 		case nil, io.EOF:
+			seg = seg[:n]
 			res.ContentLength = int64(n)
 		default:
 			return err
@@ -212,6 +197,56 @@ func (s *Modifier) ModifyResponse(res *http.Response) error {
 	res.Header.Set("Content-Type", fmt.Sprintf("multipart/byteranges; boundary=%s", mpw.Boundary()))
 
 	return nil
+}
+
+// resolveRange resolves one byte-range-spec of a Range header against a file
+// of size bytes, with the rules of RFC 7233 section 2.1 (the ones
+// net/http.ServeContent applies): "first-last" with last clamped to the final
+// byte, "first-" up to the final byte, and the suffix form "-n" for the last n
+// bytes. ok is false when the spec is malformed or selects no byte of the
+// file; otherwise 0 <= start <= end < size.
+func resolveRange(spec string, size int) (start, end int, ok bool) {
+	rs := strings.Split(spec, "-")
+	if len(rs) != 2 {
+		return 0, 0, false
+	}
+	first, last := strings.TrimSpace(rs[0]), strings.TrimSpace(rs[1])
+
+	if first == "" {
+		n, err := strconv.Atoi(last)
+		if err != nil || n <= 0 || size == 0 {
+			return 0, 0, false
+		}
+		if n > size {
+			n = size
+		}
+		return size - n, size - 1, true
+	}
+
+	start, err := strconv.Atoi(first)
+	if err != nil || start < 0 || start >= size {
+		return 0, 0, false
+	}
+	if last == "" {
+		return start, size - 1, true
+	}
+
+	end, err = strconv.Atoi(last)
+	if err != nil || start > end {
+		return 0, 0, false
+	}
+	if end >= size {
+		end = size - 1
+	}
+	return start, end, true
+}
+
+// rangeNotSatisfiable turns res into a 416 for a file of size bytes.
+func rangeNotSatisfiable(res *http.Response, size int) {
+	res.StatusCode = http.StatusRequestedRangeNotSatisfiable
+	res.Header.Set("Content-Range", fmt.Sprintf("bytes */%d", size))
+	res.ContentLength = 0
+	res.Body = http.NoBody
 }
 
 // SetExplicitPathMappings sets an optional mapping of request paths to local
